@@ -21,7 +21,7 @@ TInit == InitE /\ i = 1
 \* the next run starts from the initial state again
 ResetEv ==
     /\ Ev.e = "reset"
-    /\ db' = Db0 /\ conn' = 0 /\ tx' = [p \in Procs |-> None] /\ ip' = [p \in Procs |-> 1]
+    /\ db' = Db0 /\ conn' = 0 /\ lk' = NoLocks /\ tx' = [p \in Procs |-> None] /\ ip' = [p \in Procs |-> 1]
     /\ pc' = [p \in Procs |-> IF Len(Prog[p]) = 0 THEN "idle" ELSE IF Prog[p][1].kind = "read" THEN "rops" ELSE "wops"]
     /\ snap' = [p \in Procs |-> None] /\ dec' = [p \in Procs |-> NoDec] /\ res' = [p \in Procs |-> <<>>]
     /\ seen' = [p \in Procs |-> {}] /\ faults' = 0 /\ crashed' = FALSE /\ acked' = Db0 /\ sched' = <<>>
